@@ -265,6 +265,8 @@ def _check_exceptional(I, ctx, c, base, exc):
     ctx.cover(f"exit.raise.{short}")
     for n in exc.mro:
         ctx.cover(f"exit.raise.{n.split(':')[-1]}")
+    for label, thunk in c._posts_exc:
+        ctx.prove(f"{base}/post-exc.{label}", _conj(I, thunk(exc)), detail=f"on exit with {short}")
     matching = [(e, w, l) for e, w, l in c._raises if exc.isinstance_of(e) or short == e or exc.isinstance_of(e.split(".")[-1])]
     allowed = c._raises_only
     if allowed is not None:
